@@ -31,7 +31,7 @@ class C19(BaseCheck):
              'scales.loadbalancer.zookeeper:ServerSet._safe_zk_node_to_member')
   REQUIRED_ANCHORS = ANCHORS
   REQUIRED_CLASSES = ('parent-deleted', 'parent-recreated-same-names', 'parent-recreated-different-names',
-                      'callback-raised', 'callback-slow', 'burst', 'non-member-child', 'path-created-later', 'vanished-before-read', 'fast-recreate',
+                      'callback-raised', 'callback-slow', 'iteration-left-unfinished', 'burst', 'non-member-child', 'path-created-later', 'vanished-before-read', 'fast-recreate',
                       'same-name-recreated', 'blip', 'restart-same-endpoint',
                       'blip:names-taken-by-other-servers', 'tuple-members')
   ASSUMPTIONS = ('member znodes get fresh sequential names within one incarnation of the watched path (as '
@@ -212,9 +212,16 @@ class C19(BaseCheck):
     check('after start')
     nops = rng.choice([10, 30, 80, 150])
     saved_names = None
+    kept_iterators = []
     for _ in range(nops):
       k = rng.random()
       members = sorted(truth())
+      if idx % 4 == 2 and rng.random() < 0.08:
+        # the application looks at the server set itself: it takes the first member of an iteration
+        # (or none) and keeps the iterator around - whatever it does with it, notifications go on
+        classes.add('iteration-left-unfinished')
+        g_ = gevent.spawn(lambda: (lambda it: (next(it, None), kept_iterators.append(it)))(iter(ss)))
+        g_.join(timeout=5)
       if k < 0.35:
         add_member()
       elif k < 0.6 and members:
